@@ -58,6 +58,25 @@ func (t *Collection) markReclaimable(n *node, reclaimMark *node) {
 	n.next = reclaimMark
 }
 
+// unmarkReclaimable clears the marks that an aborted mutation left on
+// the cached nodes of the still-current version rooted at nloc.
+func (t *Collection) unmarkReclaimable(nloc *nodeLoc, reclaimMark *node) {
+	if nloc.isEmpty() {
+		return
+	}
+	n := nloc.Node()
+	if n == nil {
+		return
+	}
+	t.rootLock.Lock()
+	if n.next == reclaimMark {
+		n.next = nil
+	}
+	t.rootLock.Unlock()
+	t.unmarkReclaimable(&n.left, reclaimMark)
+	t.unmarkReclaimable(&n.right, reclaimMark)
+}
+
 // markTreeReclaimableUnlocked marks every cached, unmarked node below
 // nloc; the caller holds rootLock.
 func (t *Collection) markTreeReclaimableUnlocked(nloc *nodeLoc, reclaimMark *node) {
